@@ -83,7 +83,39 @@ pub fn wf(n: &Narsese, from_parser: bool) -> Result<(), String> {
     if let Err(e) = ops::typst(n) {
         return Err(format!("rendering the value to Typst: {e}"));
     }
-    Ok(())
+    items_formattable(n)
+}
+
+/// the items of a sentence / task can also be formatted one by one (`format_truth`, `format_stamp`,
+/// `format_punctuation`, `format_budget`, `format_term` and the `FormatTo` impls of the items) - all of
+/// them public formatting routes of "such a value"; only "does not panic" is demanded
+fn items_formattable(n: &Narsese) -> Result<(), String> {
+    use narsese::api::{FormatTo, GetBudget, GetPunctuation, GetStamp, GetTerm, GetTruth};
+    let n2 = n.clone();
+    quiet_catch(AssertUnwindSafe(move || {
+        for g in fmts::all() {
+            match &n2 {
+                Narsese::Term(t) => {
+                    let _ = g.e.format_term(t);
+                }
+                Narsese::Sentence(s) => {
+                    let _ = (g.e.format_term(s.get_term()), g.e.format_punctuation(s.get_punctuation()), g.e.format_stamp(s.get_stamp()));
+                    let _ = (s.get_punctuation().format_to(g.e), s.get_stamp().format_to(g.e));
+                    if let Some(t) = s.get_truth() {
+                        let _ = (g.e.format_truth(t), t.format_to(g.e));
+                    }
+                }
+                Narsese::Task(t) => {
+                    let _ = (g.e.format_term(t.get_term()), g.e.format_punctuation(t.get_punctuation()), g.e.format_stamp(t.get_stamp()));
+                    let _ = (g.e.format_budget(t.get_budget()), t.get_budget().format_to(g.e));
+                    if let Some(tr) = t.get_truth() {
+                        let _ = (g.e.format_truth(tr), tr.format_to(g.e));
+                    }
+                }
+            }
+        }
+    }))
+    .map_err(|p| format!("formatting an item of the value on its own panics: {p}"))
 }
 
 fn sentence_term(s: &narsese::enum_narsese::Sentence) -> &Term {
@@ -127,6 +159,24 @@ pub fn case_side_doors(f: &F, s: &str) -> Result<bool, String> {
     Ok(any)
 }
 
+/// `parse::<NarseseOptions<..>>` (the item-wise public entry point): whatever items it returns obey the
+/// same ranges / image-index / non-empty-name / non-empty-compound rules
+pub fn case_options(f: &F, s: &str) -> Result<bool, String> {
+    let f2 = *f;
+    let s2 = s.to_string();
+    let r = quiet_catch(AssertUnwindSafe(move || f2.e.parse::<c04::Options>(&s2).ok()));
+    let Ok(Some(o)) = r else { return Ok(false) };
+    for x in o.truth.iter().flat_map(truth_floats).chain(o.budget.iter().flat_map(budget_floats)) {
+        if !in01(x) {
+            return Err(format!("parse::<NarseseOptions>({s:?}) returns {o:?} with a truth/budget component outside [0,1]"));
+        }
+    }
+    if let Some(t) = &o.term {
+        wf_term(t, true).map_err(|e| format!("parse::<NarseseOptions>({s:?}) returns the term {} : {e}", R::of_term(t).show()))?;
+    }
+    Ok(o.term.is_some() || o.truth.is_some() || o.budget.is_some())
+}
+
 pub fn case_parse(f: &F, s: &str) -> Result<bool, String> {
     match ops::parse_enum(f, s) {
         Ok(n) => wf(&n, true).map(|_| true).map_err(|e| format!("enum parser accepts {s:?} as {} : {e}", show_cv(&cv_of(&n)))),
@@ -153,6 +203,7 @@ pub fn replay_case(c: &J) -> Result<(), String> {
     match c["op"].as_str() {
         Some("fold_wf") => case_fold(&f, &ln_from_json(&c["value"])).map(|_| ()),
         Some("side_door_wf") => case_side_doors(&f, c["input"].as_str().unwrap_or("")).map(|_| ()),
+        Some("options_wf") => case_options(&f, c["input"].as_str().unwrap_or("")).map(|_| ()),
         Some("text_fold_wf") => case_text_fold(&f, c["input"].as_str().unwrap_or("")).map(|_| ()),
         _ => case_parse(&f, c["input"].as_str().unwrap_or("")).map(|_| ()),
     }
@@ -186,6 +237,14 @@ pub fn run(run: &Run) {
                 }
                 Ok(false) => {}
                 Err(msg) => run.violation(&format!("[{}] {}", f.name, msg), json!({"op": "side_door_wf", "format": f.name, "input": s}), &[]),
+            }
+            run.eval(1);
+            match case_options(&f, s) {
+                Ok(true) => {
+                    accepted.add(&format!("{}:options:{s}", f.name));
+                }
+                Ok(false) => {}
+                Err(msg) => run.violation(&format!("[{}] {}", f.name, msg), json!({"op": "options_wf", "format": f.name, "input": s}), &[]),
             }
             run.eval(1);
             match crate::watch::tagged(f.name, s, || case_text_fold(&f, s)) {
